@@ -404,6 +404,10 @@ def _first_repo_frame(err):
             if '/verif/' in loc:
                 continue
             return fn
+    for m in re.finditer(r'#\d+ (\S+) (/\S+?):\d+', err):      # ThreadSanitizer frame format
+        fn, loc = m.group(1), m.group(2)
+        if ('/src/' in loc or '/apps/' in loc) and '/verif/' not in loc:
+            return fn
     m = re.search(r'#0 0x[0-9a-f]+ in (\S+)', err)
     return m.group(1) if m else 'unknown'
 
